@@ -54,6 +54,9 @@ type cred struct {
 	raw    string
 	vc     vc.VerifiableCredential
 	role   string // how the generator meant it: match:<desc> / near:<desc>:<what> / decoy / duplicate
+	// what the credential was rendered from (only used to synthesise id-colliding twins, never by a verdict)
+	tmpl    *tmpl
+	subjArr bool // JWT: credentialSubject rendered as array
 }
 
 func b64(v []byte) string { return base64.RawURLEncoding.EncodeToString(v) }
@@ -94,11 +97,13 @@ func subjectsAny(l []map[string]any) []any {
 func renderLDP(t *tmpl, proofType string, rnd *rand.Rand) (*cred, error) {
 	m := map[string]any{
 		"@context":          []any{ctxV1, ctxEx},
-		"id":                t.id,
 		"type":              one(strs(t.types)),
 		"issuer":            t.issuer,
 		"issuanceDate":      t.issued.UTC().Format(time.RFC3339),
 		"credentialSubject": one(subjectsAny(t.subjects)),
+	}
+	if t.id != "" { // id is optional in the data model
+		m["id"] = t.id
 	}
 	if t.expires != nil {
 		m["expirationDate"] = t.expires.UTC().Format(time.RFC3339)
@@ -138,9 +143,11 @@ func renderJWT(t *tmpl, alg string, subjectAsArray bool, rnd *rand.Rand) (*cred,
 	claims := map[string]any{
 		"iss": t.issuer,
 		"sub": sub,
-		"jti": t.id,
 		"nbf": t.issued.Unix(),
 		"vc":  inner,
+	}
+	if t.id != "" {
+		claims["jti"] = t.id
 	}
 	if t.expires != nil {
 		claims["exp"] = t.expires.Unix()
@@ -168,11 +175,13 @@ func renderJWT(t *tmpl, alg string, subjectAsArray bool, rnd *rand.Rand) (*cred,
 	}
 	view := map[string]any{
 		"@context":          []any{ctxV1, ctxEx},
-		"id":                t.id,
 		"type":              strs(t.types),
 		"issuer":            t.issuer,
 		"issuanceDate":      t.issued.UTC().Format(time.RFC3339),
 		"credentialSubject": subjects,
+	}
+	if t.id != "" {
+		view["id"] = t.id
 	}
 	if t.expires != nil {
 		view["expirationDate"] = t.expires.UTC().Format(time.RFC3339)
